@@ -232,6 +232,25 @@ func genScenario(r *rand.Rand, id int, class string) *Scenario {
 				pair = [2]int{0, 4}
 			}
 			allAsync := r.Intn(2) == 0
+			if r.Intn(2) == 0 {
+				// LEADER ABORT (seed C18-6): equal plain requests, so the followers join the flight of the first caller; that
+				// caller -- a sync call -- is cancelled, or its own context's deadline passes, at a random point of the
+				// server's hold; every follower (sync or async, own context alive, own time-out 3 s >= 50x the hold) must
+				// get the shared RESPONSE, never the leader's cancellation / deadline error
+				at := 8000 + r.Int63n(int64(sc.HoldMs)*1000-13000)
+				for i := 0; i < m; i++ {
+					cs := CallerSpec{Kind: 4, Key: key, Var: 0, TimeoutMs: normalTo, CancelUs: -1, StartUs: int64(i)*1500 + r.Int63n(500), Async: i > 0 && r.Intn(2) == 0}
+					if i == 0 {
+						if r.Intn(2) == 0 {
+							cs.CancelUs = at
+						} else {
+							cs.CtxUs = at
+						}
+					}
+					sc.Callers = append(sc.Callers, cs)
+				}
+				continue
+			}
 			for i := 0; i < m; i++ {
 				cs := CallerSpec{Kind: 4, Key: key, Var: pair[i%2], TimeoutMs: normalTo, CancelUs: -1, StartUs: int64(i)*1500 + r.Int63n(500), Async: allAsync || r.Intn(3) == 0}
 				if i == 0 { // the caller that starts the shared request
